@@ -34,7 +34,7 @@ static vf::Ctx* C;
 static FILE* OBS;
 static string obuf;
 
-enum Op { ENC = 1, DEC = 2, ROT = 3, URL = 4, CTRL = 5, QUOTES = 6, DECENUM = 7, NETLOC = 8 };
+enum Op { ENC = 1, DEC = 2, ROT = 3, URL = 4, CTRL = 5, QUOTES = 6, DECENUM = 7, NETLOC = 8, SWEEP = 9 };
 
 struct Field {
   uint8_t status;
@@ -64,11 +64,12 @@ static void put_field(const Field& f) {
 }
 
 // Runs fn (a single call into phosg) and returns what happened.  No shared state: usable from any thread.
-template <typename F>
+// P = poison errno first (always, except inside the static-initializer probe, which must not touch vf::)
+template <bool P = true, typename F>
 static Field observe(F fn) {
   Field f{0, string()};
   try {
-    vf::poison_errno();
+    if (P) vf::poison_errno();
     f.bytes = fn();
   } catch (const std::invalid_argument& e) {
     f.status = 1;
@@ -87,11 +88,12 @@ struct Exact {
   uint8_t* p;
   size_t n;
   Exact(const void* d, size_t n_) : n(n_) {
-    p = (uint8_t*)malloc(n ? n : 1);
-    if (!p) {
-      fprintf(stderr, "[harness-error] malloc\n");
+    void* v = nullptr;  // 16-byte aligned start, exact size: this is the "aligned" reference placement
+    if (posix_memalign(&v, 16, n ? n : 1) != 0) {
+      fprintf(stderr, "[harness-error] posix_memalign\n");
       exit(3);
     }
+    p = (uint8_t*)v;
     if (n) memcpy(p, d, n);
   }
   ~Exact() { free(p); }
@@ -121,6 +123,7 @@ static const char* op_name(uint8_t op) {
 }
 
 // One record (ENC/DEC/ROT/URL/CTRL/QUOTES) -> the fields that go into the observation log.  Thread-safe.
+template <bool P = true>
 static vector<Field> exec_record(uint8_t op, uint8_t flag, const uint8_t* pay, uint32_t len) {
   vector<Field> out;
   string in((const char*)pay, len);
@@ -128,13 +131,13 @@ static vector<Field> exec_record(uint8_t op, uint8_t flag, const uint8_t* pay, u
     case ENC: {
       const char* alpha = alphabet_for(flag);
       Exact e(pay, len);
-      out.push_back(observe([&] { return phosg::base64_encode(e.ptr(), e.n, alpha); }));
-      out.push_back(observe([&] { return phosg::base64_encode(in, alpha); }));
+      out.push_back(observe<P>([&] { return phosg::base64_encode(e.ptr(), e.n, alpha); }));
+      out.push_back(observe<P>([&] { return phosg::base64_encode(in, alpha); }));
       if (out[0].status == 0) {
         const string enc = out[0].bytes;  // copy: out grows below
         Exact ee(enc.data(), enc.size());
-        out.push_back(observe([&] { return phosg::base64_decode(ee.ptr(), ee.n, alpha); }));
-        out.push_back(observe([&] { return phosg::base64_decode(enc, alpha); }));
+        out.push_back(observe<P>([&] { return phosg::base64_decode(ee.ptr(), ee.n, alpha); }));
+        out.push_back(observe<P>([&] { return phosg::base64_decode(enc, alpha); }));
       } else {
         out.push_back({4, ""});
         out.push_back({4, ""});
@@ -144,35 +147,171 @@ static vector<Field> exec_record(uint8_t op, uint8_t flag, const uint8_t* pay, u
     case DEC: {
       const char* alpha = alphabet_for(flag);
       Exact e(pay, len);
-      out.push_back(observe([&] { return phosg::base64_decode(e.ptr(), e.n, alpha); }));
-      out.push_back(observe([&] { return phosg::base64_decode(in, alpha); }));
+      out.push_back(observe<P>([&] { return phosg::base64_decode(e.ptr(), e.n, alpha); }));
+      out.push_back(observe<P>([&] { return phosg::base64_decode(in, alpha); }));
       break;
     }
     case ROT: {
       Exact e(pay, len);
-      out.push_back(observe([&] { return phosg::rot13(e.ptr(), e.n); }));
+      out.push_back(observe<P>([&] { return phosg::rot13(e.ptr(), e.n); }));
       if (out[0].status == 0) {
         const string y = out[0].bytes;  // copy: out grows below
         Exact e2(y.data(), y.size());
-        out.push_back(observe([&] { return phosg::rot13(e2.ptr(), e2.n); }));
+        out.push_back(observe<P>([&] { return phosg::rot13(e2.ptr(), e2.n); }));
       } else
         out.push_back({4, ""});
       break;
     }
     case URL:
-      out.push_back(observe([&] { return phosg::escape_url(in, flag != 0); }));
+      out.push_back(observe<P>([&] { return phosg::escape_url(in, flag != 0); }));
       break;
     case CTRL:
-      out.push_back(observe([&] { return phosg::escape_controls(in, flag != 0); }));
+      out.push_back(observe<P>([&] { return phosg::escape_controls(in, flag != 0); }));
       break;
     case QUOTES:
-      out.push_back(observe([&] { return phosg::escape_quotes(in); }));
+      out.push_back(observe<P>([&] { return phosg::escape_quotes(in); }));
       break;
     default:
       fprintf(stderr, "[harness-error] exec_record: op %u\n", op);
       exit(3);
   }
   return out;
+}
+
+
+// ---- early-call probe -------------------------------------------------------------------------------
+// Namespace-scope object of the harness TU: its constructor runs during static initialization (before main and, the harness
+// object being first on the link line, before libphosg's own dynamic initializers), calls every C11 function once on fixed
+// inputs and stores what came back.  main() writes the stored results to the observation log in place of the EARLY-flagged
+// records at the head of the case file, so the Python oracle judges them like any other record.  No vf:: call in here.
+static const char EARLY_TEXT[] = "early call probe: \"quoted\" 'single' back\\slash %41 a/b?c=d&e ~ tab\t nl\n del\x7f nul\x00 hi\xff\xc3\xa9 Uryyb";
+static const char EARLY_B64_STD[] = "ZWFybHkgY2FsbCA+Pj4/Pz8gcHJvYmU=";
+static const char EARLY_B64_URL[] = "ZWFybHkgY2FsbCA-Pj4_Pz8gcHJvYmU=";
+struct EarlyRec {
+  uint8_t op, flag;
+  const char* data;
+  size_t len;
+};
+static const EarlyRec EARLY_RECS[] = {
+    {ENC, 0, EARLY_TEXT, sizeof(EARLY_TEXT) - 1}, {ENC, 1, EARLY_TEXT, sizeof(EARLY_TEXT) - 1},
+    {DEC, 0, EARLY_B64_STD, sizeof(EARLY_B64_STD) - 1}, {DEC, 1, EARLY_B64_URL, sizeof(EARLY_B64_URL) - 1},
+    {DEC, 0, EARLY_B64_URL, sizeof(EARLY_B64_URL) - 1},  // '-' and '_' are not in the standard alphabet: must throw
+    {ROT, 0, EARLY_TEXT, sizeof(EARLY_TEXT) - 1}, {URL, 0, EARLY_TEXT, sizeof(EARLY_TEXT) - 1}, {URL, 1, EARLY_TEXT, sizeof(EARLY_TEXT) - 1},
+    {CTRL, 0, EARLY_TEXT, sizeof(EARLY_TEXT) - 1}, {CTRL, 1, EARLY_TEXT, sizeof(EARLY_TEXT) - 1}, {QUOTES, 0, EARLY_TEXT, sizeof(EARLY_TEXT) - 1}};
+static const size_t N_EARLY = sizeof(EARLY_RECS) / sizeof(EARLY_RECS[0]);
+struct EarlyProbe {
+  vector<vector<Field>> results;
+  bool netloc_threw = false;
+  string rendered, parsed_host;
+  unsigned parsed_port = 0;
+  EarlyProbe() {
+    for (size_t i = 0; i < N_EARLY; i++)
+      results.push_back(exec_record<false>(EARLY_RECS[i].op, EARLY_RECS[i].flag, (const uint8_t*)EARLY_RECS[i].data, (uint32_t)EARLY_RECS[i].len));
+    try {
+      rendered = phosg::render_netloc("early.example.org", 8080);
+      auto pr = phosg::parse_netloc(rendered, 0);
+      parsed_host = pr.first;
+      parsed_port = pr.second;
+    } catch (...) {
+      netloc_threw = true;
+    }
+  }
+};
+static EarlyProbe g_early;
+
+// ---- alignment sweep ----------------------------------------------------------------------------------
+// (ptr,size) entry points of C11: base64_encode, base64_decode, rot13.  The same bytes at every misalignment 1..15 of a
+// 16-byte aligned block, flush against the end of an exact-size block and with 16 spare bytes behind; every result must be
+// identical (status, bytes, hence length) to the result for the aligned placement, which is the one in the log.
+static void align_sweep(uint8_t op, uint8_t flag, const uint8_t* pay, uint32_t len, const Field& ref) {
+  const char* alpha = alphabet_for(flag);
+  for (size_t off = 1; off < 16; off++)
+    for (int slack = 0; slack < 2; slack++) {
+      size_t total = off + len + (slack ? 16 : 0);
+      void* blk = nullptr;
+      if (posix_memalign(&blk, 16, total) != 0) {
+        fprintf(stderr, "[harness-error] posix_memalign\n");
+        exit(3);
+      }
+      if (slack) memset(blk, op == ROT ? 'n' : 'Q', total);  // spare bytes look like valid input of the function
+      uint8_t* p = (uint8_t*)blk + off;
+      if (len) memcpy(p, pay, len);
+      C->crumb_n("alignment-sweep(op, flag, len, offset, slack)", op, flag, len, off, (uint64_t)slack);
+      C->evaluations++;
+      Field got = op == ENC ? observe([&] { return phosg::base64_encode(p, len, alpha); })
+          : op == DEC       ? observe([&] { return phosg::base64_decode(p, len, alpha); })
+                            : observe([&] { return phosg::rot13(p, len); });
+      if (!(got == ref))
+        C->violation(fmt("%s:alignment", op_name(op)), fmt("%s(ptr,size) gives a different result when ptr is not 16-byte aligned", op_name(op)),
+            fmt("flag=%u len=%u ptr%%16=%zu %s input(hex)=%s got: status=%u %zu bytes %s  aligned: status=%u %zu bytes %s", flag, len, off,
+                slack ? "(16 spare bytes after the range)" : "(range ends at the end of the heap block)", vf::hex(pay, len < 100 ? len : 100).c_str(), got.status,
+                got.bytes.size(), vf::hex(got.bytes.substr(0, 100)).c_str(), ref.status, ref.bytes.size(), vf::hex(ref.bytes.substr(0, 100)).c_str()));
+      free(blk);
+    }
+  C->cls(fmt("alignment:%s:%s:%s", op_name(op), alpha_name(flag), len <= 80 ? "len<=80" : "large"));
+}
+
+// ---- dense base64 length sweep ---------------------------------------------------------------------------
+// payload: u32 lo, hi, stride, first, sample_every; u64 prng seed.  For every n = first, first+stride, ... < hi: content from
+// a cheap PRNG, encode -> decode must give the content back and the encoding must have 4*ceil(n/3) characters (identity /
+// length laws, compared here); every sample_every-th (input, encoding) pair is logged for the Python base64 comparison.
+static void b64_sweep(uint8_t flag, const uint8_t* pay, uint32_t plen) {
+  if (plen != 28) {
+    fprintf(stderr, "[harness-error] malformed SWEEP record\n");
+    exit(3);
+  }
+  uint32_t lo, hi, stride, first, sample_every;
+  uint64_t seed;
+  memcpy(&lo, pay, 4);
+  memcpy(&hi, pay + 4, 4);
+  memcpy(&stride, pay + 8, 4);
+  memcpy(&first, pay + 12, 4);
+  memcpy(&sample_every, pay + 16, 4);
+  memcpy(&seed, pay + 20, 8);
+  const char* alpha = alphabet_for(flag);
+  uint64_t x = seed | 1, count = 0, logged = 0;
+  string data;
+  for (uint32_t n = lo + first; n < hi; n += stride, count++) {
+    data.resize(n);
+    for (uint32_t i = 0; i < n; i += 8) {  // xorshift64*
+      x ^= x >> 12;
+      x ^= x << 25;
+      x ^= x >> 27;
+      uint64_t v = x * 0x2545F4914F6CDD1DULL;
+      memcpy(&data[i], &v, n - i < 8 ? n - i : 8);
+    }
+    C->crumb_n("b64-sweep(flag, n)", flag, n);
+    C->evaluations += 2;
+    Exact e(data.data(), n);
+    Field enc = observe([&] { return phosg::base64_encode(e.ptr(), e.n, alpha); });
+    string kase = fmt("alphabet=%s n=%u input[0..16)=%s (xorshift64* content, seed %016" PRIx64 ")", alpha_name(flag), n, vf::hex(data.substr(0, 16)).c_str(), seed);
+    if (enc.status != 0) {
+      C->violation(fmt("b64sweep:encode-throws:%s", alpha_name(flag)), "base64_encode threw", kase + " " + enc.bytes);
+      continue;
+    }
+    if (enc.bytes.size() != 4 * (((size_t)n + 2) / 3))
+      C->violation(fmt("b64sweep:encoded-length:%s", alpha_name(flag)), "base64_encode(x) does not have 4*ceil(len/3) characters", kase + fmt(" encoded length=%zu", enc.bytes.size()));
+    Field dec;
+    if (n & 1) {
+      dec = observe([&] { return phosg::base64_decode(enc.bytes, alpha); });
+    } else {
+      Exact ee(enc.bytes.data(), enc.bytes.size());
+      dec = observe([&] { return phosg::base64_decode(ee.ptr(), ee.n, alpha); });
+    }
+    if (dec.status != 0)
+      C->violation(fmt("b64sweep:decode-rejects-own-encoding:%s", alpha_name(flag)), "base64_decode threw on base64_encode(x)", kase + fmt(" encoded length=%zu: ", enc.bytes.size()) + dec.bytes);
+    else if (dec.bytes != data)
+      C->violation(fmt("b64sweep:roundtrip:%s", alpha_name(flag)), "base64_decode(base64_encode(x)) != x", kase + fmt(" encoded length=%zu decoded length=%zu", enc.bytes.size(), dec.bytes.size()));
+    if (count % sample_every == 0) {
+      put_field({0, data});
+      put_field(enc);
+      logged++;
+      flush_obs(false);
+    }
+  }
+  C->count(fmt("b64sweep:%s:lengths", alpha_name(flag)), count);
+  C->count(fmt("b64sweep:%s:logged-for-python", alpha_name(flag)), logged);
+  C->cls(fmt("exec:b64sweep:%s:to%u", alpha_name(flag), hi));
 }
 
 static string exec_class(uint8_t op, uint8_t flag, uint32_t len, const vector<Field>& f) {
@@ -424,7 +563,9 @@ int main(int argc, char** argv) {
       fprintf(stderr, "[harness-error] truncated case file\n");
       return 3;
     }
-    uint8_t op = buf[pos], flag = buf[pos + 1];
+    uint8_t op = buf[pos], rawflag = buf[pos + 1];
+    uint8_t flag = rawflag & 0x0F;  // 0x40: EARLY (emit what the static initializer stored), 0x20: ALIGN (alignment sweep too)
+    bool is_early = rawflag & 0x40, is_align = rawflag & 0x20;
     uint32_t len;
     memcpy(&len, &buf[pos + 2], 4);
     pos += 6;
@@ -443,7 +584,19 @@ int main(int argc, char** argv) {
       case URL:
       case CTRL:
       case QUOTES: {
-        vector<Field> fields = exec_record(op, flag, pay, len);
+        vector<Field> fields;
+        if (is_early) {
+          const EarlyRec* er = rec < N_EARLY ? &EARLY_RECS[rec] : nullptr;
+          if (!er || er->op != op || er->flag != flag || er->len != len || memcmp(er->data, pay, len) != 0) {
+            fprintf(stderr, "[harness-error] early record %u of the case file differs from the harness constant\n", rec);
+            return 3;
+          }
+          fields = g_early.results[rec];
+          c.cls("early-call:" + string(op_name(op)));
+        } else {
+          fields = exec_record(op, flag, pay, len);
+          if (is_align && (op == ENC || op == DEC || op == ROT)) align_sweep(op, flag, pay, len, fields[0]);
+        }
         for (auto& fl : fields) {
           put_field(fl);
           if (fl.status != 4) c.evaluations++;
@@ -452,6 +605,9 @@ int main(int argc, char** argv) {
         if (mt) recs.push_back({op, flag, pay, len, fields});
         break;
       }
+      case SWEEP:
+        b64_sweep(flag, pay, len);
+        break;
       case DECENUM:
         if (mt) {
           fprintf(stderr, "[harness-error] DECENUM record in an mt case file\n");
@@ -469,6 +625,13 @@ int main(int argc, char** argv) {
     }
     c.count("records");
     flush_obs(false);
+  }
+  if (!mt && nrec >= N_EARLY) {  // netloc part of the early-call probe: identity law on what the static initializer stored
+    c.evaluations++;
+    if (g_early.netloc_threw || g_early.rendered != "early.example.org:8080" || g_early.parsed_host != "early.example.org" || g_early.parsed_port != 8080)
+      c.violation("early-call:netloc", "render_netloc/parse_netloc called during static initialization did not round-trip (early.example.org, 8080)",
+          fmt("threw=%d rendered=%s parsed=(%s,%u)", (int)g_early.netloc_threw, g_early.rendered.c_str(), g_early.parsed_host.c_str(), g_early.parsed_port));
+    c.cls("early-call:netloc");
   }
   flush_obs(true);
   if (fclose(OBS) != 0) {
